@@ -1,6 +1,6 @@
 """C07 configuration for ./check (keys: see checks/propcfg.py)."""
 CFG = {
-    "modules": ["VaxisModel.Props.C07", "VaxisModel.Props.C07Caps", "VaxisModel.Props.C07Writers", "VaxisModel.Props.C07Width", "VaxisModel.Props.C07Image"],
+    "modules": ["VaxisModel.Props.C07", "VaxisModel.Props.C07Caps", "VaxisModel.Props.C07Writers", "VaxisModel.Props.C07Width", "VaxisModel.Props.C07Image", "VaxisModel.Props.C07Body"],
     "extractors": ["C07", "C04", "C18", "C03", "C07caps", "C07writers", "C07sel"],
     "drivers": ["C07", "C07caps", "C01", "C04"],
     "stateful_drivers": ["C01", "C04"],
@@ -18,7 +18,7 @@ CFG = {
                   "without RGB, no 4:n/58/59 without styled underlines, no OSC 66 / 2026 unless advertised) for all grids and styles; "
                   "lifecycle_gated: by kernel evaluation over all 2^9 guard assignments of the lists regenerated from vaxis.go, start-up after "
                   "DA1, Suspend and Resume write only baseline or advertised vocabulary; width_method; caps_exact / caps_sound / "
-                  "reply_notices_exact over the start-up LTS (the loop of New running concurrently with the model of handleSequence): for "
+                  "reply_notices_exact (and reply_notices_exact_body: the same over the body of handleSequence regenerated from the source and interpreted, equal to the hand model by C03's handleSequence_body_eq_model) over the start-up LTS (the loop of New running concurrently with the model of handleSequence): for "
                   "every reply stream, order, interleaving, queue capacity and probe outcome, each capability flag is set iff a reply "
                   "advertising it arrived no later than the first DA1 reply, and every stream has a complete run attaining it (startup_completes, caps_exact_attained, caps_exact_attained_probe; loop_interpreted: the loop's type switch is executed from the regenerated table; facts_* pin the loop, the probe, applyQuirks, every write of "
                   "the capability record and the Can* accessors to the source); writers_classified / gated_sequences_guarded / "
